@@ -53,6 +53,33 @@ CHECKS = {
         "Trusted: the dict model; the fake dbutils for DBFS; prefix-related paths are not generated (undocumented).",
         "DESIGN.md 5/C08",
     ),
+    "C01": (
+        "exploration",
+        "Hypothesis-generated programs (PipeLang) x edit/restart/revert histories x store kinds; oracle: dds-free reference "
+        "interpreter (itself cross-checked against real Python with a stub dds)",
+        "Every evaluation of every generated history is run by real dds in forked worker processes and its value compared with "
+        "the reference interpreter for the current program state; generated search is the natural level for a property over programs x histories.",
+        "Trusted: the reference interpreter (validated against real Python on a sample of every run); the PipeLang subset is the documented supported subset.",
+        "DESIGN.md 5/C01",
+    ),
+    "C02": (
+        "exploration",
+        "Hypothesis-generated programs x single steps (no-op, restart, revert, module copy, entry switch, single edits); oracle: "
+        "execution log within the log allowed by the dependency cone + unchanged signatures",
+        "The execution log (recorded through a non-accepted module) of the evaluation after each step is compared with an upper "
+        "bound computed from the model's dependency closure; signatures of nodes that must stay idle are compared before/after.",
+        "Trusted: the closure computation of the model; run-time-argument nodes are only asserted idle for steps outside every cone.",
+        "DESIGN.md 4.1, 5/C02",
+    ),
+    "C03": (
+        "exploration",
+        "metamorphic testing over generated programs x environment variants (fresh interpreters with other hash seeds, cwd, "
+        "location, store kind, options, prior in-process history) + pinned signature corpus",
+        "The signature map of each generated program is captured in a baseline and in 3-5 variants and must be identical; the "
+        "committed corpus (pinned on the unmodified tree) must be reproduced byte-for-byte.",
+        "Trusted: the CaptureStore wrapper; corpus re-pins are documented in corpus/C03/REPINS.md.",
+        "DESIGN.md 5/C03",
+    ),
 }
 
 NOT_YET = {}
